@@ -14,14 +14,21 @@ def collect(crates, roots_fn, class_rules):
     res = report.Result('X', 'quick'); res.rule('R', 'x')
     census.run_census(F, res, 'R', crates, roots_fn(F), {}, class_rules, 'X')
     keys = {}
+    COUNTS.clear()
     for v in res.violations:
         k = v['key'][2:]
         keys.setdefault(k, v['where'])
+        COUNTS[k] = COUNTS.get(k, 0) + 1
     return keys
 
 def expand(keys, rules, out):
+    """Groups the sites by (function, kind). A group whose sites all get the same (status, reason) becomes one row
+    `<function>/<kind>/*` with the audited count (robust against edits that only change the producer expression; a new
+    site of that kind in that function raises the count and alarms). Mixed groups are listed site by site."""
+    import collections
     rows = []
     left = []
+    groups = collections.OrderedDict()
     for k, where in sorted(keys.items()):
         hit = None
         for pat, status, reason in rules:
@@ -31,12 +38,50 @@ def expand(keys, rules, out):
         if hit is None:
             left.append((k, where))
             continue
-        row = {"key": k, "status": hit[0], "reason": hit[1]}
-        rows.append(row)
+        root_kind = k.rsplit("/", 1)[0] if k.count("/") >= 2 else k
+        # key is <root>/<kind>/<producer>; producers may contain '/', so split from the known kinds
+        groups.setdefault(group_of(k), []).append((k, hit, where))
+    for g, items in groups.items():
+        kinds = {h for _, h, _ in items}
+        if len(kinds) == 1:
+            status, reason = items[0][1]
+            row = {"key": g + "/*", "count": sum(COUNTS.get(k, 1) for k, _, _ in items), "status": status, "reason": reason,
+                   "producers": [k[len(g) + 1:] for k, _, _ in items]}
+            fid(row)
+            rows.append(row)
+        else:
+            for k, (status, reason), _ in items:
+                row = {"key": k, "status": status, "reason": reason}
+                fid(row)
+                rows.append(row)
     json.dump(rows, open(out, 'w'), indent=0)
     print(out, len(rows), "rows;", len(left), "untriaged")
     for k, w in left:
         print("  UNTRIAGED", k, "@", w)
+
+
+def fid(row):
+    """findings are identified by their defect id (stable under regrouping of the table)"""
+    import re
+    if row["status"] == "finding":
+        m = re.search(r"\((D\d+[a-z]?)\)", row["reason"])
+        if m:
+            row["finding_key"] = m.group(1)
+
+
+KINDS = {'unwrap', 'index', 'bounds', 'panic', 'assert', 'unreachable', 'todo', 'unimplemented', 'ident-new', 'parse-quote', 'refcell',
+         'vec-op', 'overflow-sub', 'overflow-mul', 'div-zero', 'map-index', 'assert_eq', 'debug_assert', 'string-op', 'slice-op',
+         'str-op', 'panic-const', 'overflow-shl', 'assert_ne', 'step_by', 'char', 'overflow-div', 'overflow-rem', 'overflow-neg'}
+COUNTS = {}
+
+
+def group_of(k):
+    parts = k.split("/")
+    for i, p in enumerate(parts):
+        if p in KINDS and i > 0:
+            return "/".join(parts[:i + 1])
+    return k
+
 
 if __name__ == "__main__":
     which = sys.argv[1]
